@@ -8,7 +8,9 @@ INFO = {
                "Break the stage returns Ok(Break) without calling the successor again (decided by partial "
                "evaluation of the stage body with the call result seeded to Ok(Break)); Master::read_input leaves "
                "its loop on Break; the limiter has a path that answers Break. Each instance is a necessary "
-               "condition: a stage that drops the decision makes jawk read an endless input forever.",
+               "condition: a stage that drops the decision makes jawk read an endless input forever. Input is pulled "
+               "one byte at a time through io::Bytes (no whole-file or block read), so what is read past the last "
+               "needed value is bounded by the reader's look-ahead.",
     "not_decided": "The limiter's counter arithmetic (that Break is answered exactly when T rows were emitted) and "
                    "the number of bytes read past the last value (one byte of look-ahead by construction of Reader).",
     "trusted": ["sa/tables/pipeline_order.toml (which stage classes may precede the limiter)"],
@@ -130,6 +132,12 @@ def run(ctx, rep):
             r2.bad(key, "no return reached after Ok(Break)", site.where())
         else:
             r2.ok(key, "Break leaves the loop; returns reached: %d" % len(res.returns), site.where())
+
+
+    # "a bounded number of bytes past the value": input is pulled one byte at a time, never a whole file / block
+    from rules import c16
+    c16.raw_io(rep, lib)
+    c16.eof_distinct(rep, lib)
 
 
 def fmt(v, names):
